@@ -27,22 +27,24 @@ import (
 )
 
 type desc struct {
-	Op     string `json:"op"`             // readfn readmsg readbig server client inflate multipart head headmodel roundup
-	Mk     string `json:"mk,omitempty"`   // req | resp
-	Mode   string `json:"mode,omitempty"` // fixed | chunked | identity
-	L      int    `json:"l,omitempty"`
-	CL     int    `json:"cl,omitempty"`     // declared Content-Length (fixed mode)
-	Wire   hlib.B `json:"wire,omitempty"`   // small cases: the bytes after the head
-	Framed int    `json:"framed,omitempty"` // big cases: body length
-	Split  int    `json:"split,omitempty"`  // big chunked cases: chunk size (0: one chunk, -1: random)
-	Fill   byte   `json:"fill,omitempty"`
-	Codec  string `json:"codec,omitempty"` // gzip deflate br zstd
-	Via    string `json:"via,omitempty"`   // direct | uncompressed (BodyUncompressedWithLimit)
-	Cut    bool   `json:"cut,omitempty"`   // inflate: compressed data truncated
-	CE     int    `json:"ce,omitempty"`    // multipart: 0 none 1 gzip 2 other
-	Buf    int    `json:"buf,omitempty"`   // head: ReadBufferSize
-	Head   int    `json:"head,omitempty"`  // head: total head length
-	Seed   int64  `json:"seed,omitempty"`
+	Op       string `json:"op"`             // readfn readmsg readbig server client inflate multipart head headmodel roundup
+	Mk       string `json:"mk,omitempty"`   // req | resp
+	Mode     string `json:"mode,omitempty"` // fixed | chunked | identity
+	L        int    `json:"l,omitempty"`
+	CL       int    `json:"cl,omitempty"`     // declared Content-Length (fixed mode)
+	Wire     hlib.B `json:"wire,omitempty"`   // small cases: the bytes after the head
+	Framed   int    `json:"framed,omitempty"` // big cases: body length
+	Split    int    `json:"split,omitempty"`  // big chunked cases: chunk size (0: one chunk, -1: random)
+	Fill     byte   `json:"fill,omitempty"`
+	Codec    string `json:"codec,omitempty"` // gzip deflate br zstd
+	Via      string `json:"via,omitempty"`   // direct | uncompressed (BodyUncompressedWithLimit)
+	Cut      bool   `json:"cut,omitempty"`   // inflate: compressed data truncated
+	CE       int    `json:"ce,omitempty"`    // multipart: 0 none 1 gzip 2 other
+	Buf      int    `json:"buf,omitempty"`   // head: ReadBufferSize
+	Head     int    `json:"head,omitempty"`  // head: total head length
+	Seed     int64  `json:"seed,omitempty"`
+	PreParse bool   `json:"preparse,omitempty"` // mpread / mpserver: multipart pre-parsing enabled
+	Expect   bool   `json:"expect,omitempty"`   // mpread / mpserver: Expect: 100-continue
 }
 
 // ---------------------------------------------------------------------------
@@ -579,6 +581,104 @@ func runMultipart(d desc) hlib.Case {
 	return c
 }
 
+// ---- multipart requests with a declared length: pre-parse vs the limit -------------
+
+const mpPre = "--b\r\nContent-Disposition: form-data; name=\"f\"\r\n\r\n"
+const mpPost = "\r\n--b--\r\n"
+const mpOverhead = len(mpPre) + len(mpPost)
+
+func mpRequest(cl int, expect bool) (head, body []byte) {
+	v := cl - mpOverhead
+	if v < 0 {
+		panic("multipart body too small")
+	}
+	body = []byte(mpPre + strings.Repeat("v", v) + mpPost)
+	if len(body) != cl {
+		panic("mpOverhead is wrong")
+	}
+	h := "POST /p HTTP/1.1\r\nHost: h\r\nContent-Type: multipart/form-data; boundary=b\r\nContent-Length: " + strconv.Itoa(cl) + "\r\n"
+	if expect {
+		h += "Expect: 100-continue\r\n"
+	}
+	return []byte(h + "\r\n"), body
+}
+
+func runMpRead(d desc) hlib.Case {
+	head, body := mpRequest(d.CL, d.Expect)
+	in := append(append([]byte(nil), head...), body...)
+	under := bytes.NewReader(in)
+	br := bufio.NewReaderSize(under, 4096)
+	var req fasthttp.Request
+	var err error
+	switch {
+	case d.Expect:
+		err = req.ReadLimitBody(br, d.L) // returns after the head: the caller decides about the body
+		if err == nil && !req.MayContinue() {
+			panic("Expect: 100-continue not recognised")
+		}
+		if err == nil {
+			err = req.ContinueReadBody(br, d.L, d.PreParse)
+		}
+	case d.PreParse:
+		err = req.ReadLimitBody(br, d.L)
+	default:
+		if err = req.Header.Read(br); err == nil {
+			err = req.ContinueReadBody(br, d.L, false)
+		}
+	}
+	consumed := len(in) - br.Buffered() - under.Len() - len(head)
+	res, seen := 0, 0
+	switch {
+	case errors.Is(err, fasthttp.ErrBodyTooLarge):
+		res = 1
+	case err != nil:
+		res = 2
+	default:
+		if old := req.SwapBody(nil); len(old) > 0 {
+			res, seen = 3, len(old)
+		} else {
+			res, seen = 0, consumed
+		}
+	}
+	req.RemoveMultipartFormFiles()
+	c := hlib.Case{Kind: "mpread", Size: d.CL}
+	c.Coq = hlib.App("CMpRead", hlib.Z(int64(d.L)), hlib.Z(int64(d.CL)), hlib.Bool(d.PreParse), hlib.Bool(d.Expect), hlib.Z(int64(res)), hlib.Z(int64(seen)))
+	c.Sig = fmt.Sprintf("mpread-L%d-rel%d-pre%v-exp%v-res%d", d.L, rel(d.CL, d.L), d.PreParse, d.Expect, res)
+	return c
+}
+
+func runMpServer(d desc) hlib.Case {
+	head, body := mpRequest(d.CL, d.Expect)
+	var mu sync.Mutex
+	dispatched, seen := false, 0
+	srv := &fasthttp.Server{
+		MaxRequestBodySize:           d.L,
+		DisablePreParseMultipartForm: !d.PreParse,
+		Logger:                       nopLogger{},
+		Handler: func(ctx *fasthttp.RequestCtx) {
+			mu.Lock()
+			defer mu.Unlock()
+			dispatched = true
+			if f, err := ctx.MultipartForm(); err == nil && len(f.Value["f"]) == 1 {
+				seen = len(f.Value["f"][0]) + mpOverhead
+			} else {
+				seen = len(ctx.Request.Body())
+			}
+		},
+	}
+	status, closed, _ := serveOnce(srv, append(append([]byte(nil), head...), body...), true)
+	mu.Lock()
+	defer mu.Unlock()
+	c := hlib.Case{Kind: "mpserver", Size: d.CL}
+	c.Coq = hlib.App("CMpServer", hlib.Z(int64(d.L)), hlib.Z(int64(d.CL)), hlib.Bool(d.PreParse), hlib.Bool(d.Expect), hlib.Z(int64(status)), hlib.Bool(closed), hlib.Bool(dispatched), hlib.Z(int64(seen)))
+	eff := d.L
+	if eff <= 0 {
+		eff = fasthttp.DefaultMaxRequestBodySize
+	}
+	c.Sig = fmt.Sprintf("mpserver-L%d-rel%d-pre%v-exp%v-st%d", d.L, rel(d.CL, eff), d.PreParse, d.Expect, status)
+	return c
+}
+
 // ---- request heads around ReadBufferSize ------------------------------------------
 
 func headOfLen(n int) []byte {
@@ -701,6 +801,17 @@ func gen(r *rand.Rand, i int) desc {
 			L = 64
 		}
 		return desc{Op: "readmsg", Mk: mk, Mode: mode, L: L, CL: cl, Wire: w}
+	case x < 60:
+		L := hlib.Pick(r, []int{64, 100, 300, 4095, 4096, 4097, 0})
+		n := max2(hlib.Pick(r, append(sizesAround(max2(L, 80)), 60+r.Intn(400))), mpOverhead+1)
+		op := "mpread"
+		if r.Intn(4) == 0 {
+			op = "mpserver"
+			if L == 0 {
+				L = 300 // keep default-limit server cases out of the random stream (4 MiB bodies)
+			}
+		}
+		return desc{Op: op, L: L, CL: n, PreParse: r.Intn(3) > 0, Expect: r.Intn(3) == 0}
 	case x < 75:
 		L := hlib.Pick(r, limits)
 		n := hlib.Pick(r, sizesAround(L))
@@ -850,6 +961,17 @@ func corpus() []desc {
 			}
 		}
 	}
+	// multipart requests with an explicit Content-Length around the limit: the pre-parse branch must not bypass it
+	for _, L := range []int{64, 4096} {
+		for _, n := range sizesAround(L) {
+			for _, pre := range []bool{true, false} {
+				for _, exp := range []bool{false, true} {
+					c = append(c, desc{Op: "mpread", L: L, CL: max2(n, mpOverhead+1), PreParse: pre, Expect: exp})
+					c = append(c, desc{Op: "mpserver", L: L, CL: max2(n, mpOverhead+1), PreParse: pre, Expect: exp})
+				}
+			}
+		}
+	}
 	// heads of ReadBufferSize -1 / +0 / +1
 	for _, buf := range []int{512, 1024, 2048, 4096, 8192, 0} {
 		eff := buf
@@ -889,6 +1011,10 @@ func run(d desc) hlib.Case {
 		return runMultipart(d)
 	case "head", "headmodel":
 		return runHead(d)
+	case "mpread":
+		return runMpRead(d)
+	case "mpserver":
+		return runMpServer(d)
 	case "roundup":
 		c := hlib.Case{Kind: "roundup"}
 		c.Coq = hlib.App("CRoundUp", hlib.Z(int64(d.Framed)), hlib.Z(int64(fasthttp.VerifRoundUpForSliceCap(d.Framed))))
@@ -910,7 +1036,7 @@ func main() {
 			"through readBody/readBodyChunked/readBodyIdentity and Request/Response.ReadLimitBody; small bodies with their bytes for exact model comparison incl. a final huge declared chunk size; " +
 			"a real Server (MaxRequestBodySize incl. non-positive = 4 MiB default, bodies of 4 MiB and 4 MiB + 1) and a real HostClient (MaxResponseBodySize) over in-memory connections; " +
 			"gzip/deflate/brotli/zstd bombs (48 MiB from a few KB) through Body*WithLimit and BodyUncompressedWithLimit under a memory limit, with allocation measured; truncated compressed data; " +
-			"multipart forms around the limit, plain and gzip; request heads of ReadBufferSize-1, +0, +1 for buffers 512..8192 (and 64/128 with the head bytes through the ReqHead model); " +
+			"multipart forms around the limit, plain and gzip; multipart requests with Content-Length L-1, L, L+1, 10L against limits 64 and 4096 through Request.ReadLimitBody/ContinueReadBody and a real Server, pre-parse on/off, with and without Expect: 100-continue; request heads of ReadBufferSize-1, +0, +1 for buffers 512..8192 (and 64/128 with the head bytes through the ReqHead model); " +
 			"then seeded random draws of the same families with mutated chunked framing; a case is non-trivial when it reaches a distinct (operation, mode, limit, size relative to the limit, outcome) class",
 		Corpus:   corpus,
 		Gen:      gen,
